@@ -526,7 +526,8 @@ def c05_gpg(ctx, r, quick):
                     uh.import_key(kd.VALID_PUBLIC_KEY)
                     os.environ['GNUPGHOME'] = uh.home
                     for tr, signed_tree in ((tree, True), (utree, False)):
-                        for flags, want in (([], 0), (['-s'], 0 if signed_tree else 1), (['-P'], 0), (['-s', '-P'], 1)):
+                        for flags, want in (([], 0), (['-s'], 0 if signed_tree else 1), (['-P'], 0), (['-s', '-P'], 1),
+                                            (['-k'], 0), (['-k', '-s'], 0 if signed_tree else 1), (['-k', '-s', '-P'], 1), (['-k', '-P'], 0)):
                             rcode = run_cli(['gemato', 'verify'] + flags + [tr])
                             n += 1
                             if rcode != want:
